@@ -9,7 +9,7 @@ import logging
 logging.disable(logging.CRITICAL)
 
 
-async def scenario(first_answer_after, first_code, request_timeout_ms, retry_backoff_ms):
+async def scenario(first_answer_after, first_code, request_timeout_ms, retry_backoff_ms, second_stop=False):
     from unittest import mock
     from aiokafka.producer.producer import AIOKafkaProducer
     from aiokafka.protocol.metadata import MetadataResponse_v1
@@ -53,6 +53,21 @@ async def scenario(first_answer_after, first_code, request_timeout_ms, retry_bac
         await p.start()
     futs = [await p.send("t", b"v%d" % i, partition=0) for i in range(2)]
     t0 = asyncio.get_running_loop().time()
+    if second_stop:
+        # two shutdown paths of an application (a signal handler and a finally block) both call stop()
+        first = asyncio.ensure_future(p.stop())
+        await asyncio.sleep(0)
+        await asyncio.wait_for(p.stop(), 10)
+        took = asyncio.get_running_loop().time() - t0
+        pending = [i for i, f in enumerate(futs) if not f.done()]
+        await asyncio.wait_for(first, 10)
+        for f in futs:
+            if f.done() and not f.cancelled():
+                f.exception()
+        if pending:
+            return ("a second stop() issued while the first one was flushing returned after %.2f s with the futures of records %r "
+                    "unresolved" % (took, pending))
+        return None
     await asyncio.wait_for(p.stop(), 10)          # a stop() that never returns is a harness failure: propagates
     took = asyncio.get_running_loop().time() - t0
     pending = [i for i, f in enumerate(futs) if not f.done()]
@@ -75,6 +90,9 @@ def sweep():
             r = await scenario(first_after, code, rt, backoff)
             if r:
                 bad.append(r)
+        r = await scenario(0.3, 0, 2000, 100, second_stop=True)
+        if r:
+            bad.append(r)
     asyncio.run(main())
     return bad
 
